@@ -67,7 +67,7 @@ PROPS["C03"] = {
 
 PROPS["C04"] = {
     "kind": "harness", "test": "TestC04", "level": "fault_enumeration", "journal": True,
-    "tiers": tiers(60, 8, 700, 16),
+    "tiers": tiers(250, 8, 2500, 16),
     "rule": "rapid-generated histories (3-16 valid statements, flush after most statements) ending in shutdown or process death; EVERY flush in them (timer tick = VerifFlush, the one ending CREATE TABLE, "
             "the one in shutdown, and the one that ends recovery of the crashed image) is recorded through the hooks and its torn states are composed: pre-flush file + subset S of the flushed pages + old header, "
             "all 2^|D| subsets for |D|<=6 else >=64 sampled incl. all singletons and co-singletons; each composed image is recovered with the real InitStorage and compared with the model of all statements acknowledged "
@@ -259,7 +259,7 @@ PROPS["C20"] = {
 
 PROPS["C13"] = {
     "kind": "harness", "test": "TestC13", "level": "exploration", "race": True,
-    "tiers": tiers(6, 8, 40, 16, qtimeout=900, ttimeout=3000),
+    "tiers": tiers(10, 8, 60, 16, qtimeout=900, ttimeout=3000),
     "rule": "rapid-generated schedules: 6-14 statements (CREATE TABLE, INSERT, UPDATE, DELETE, SELECT) run through a Session with the REAL 100 ms flush timer in a binary built with -race; for up to 4 generated statements the verif hook parks the session goroutine for 120-350 ms (1-3 ticks) "
             "at the statement's log write (all its page changes done, log append pending) or, for statements that do not log (CREATE TABLE, SELECT), at a generated page lookup; generated idle gaps of 0-150 ms let ticks land before, inside and after statements. "
             "Oracles: (1) monitor: while a statement is parked no flush, page write or header write may happen on another goroutine; (2) every race-detector report with one side inside engine.EvaluateCreateTable/Insert/Update/Delete/Select and the other inside the flusher is a violation "
